@@ -87,6 +87,8 @@ def check_C13(tier, seed):
     run_ctor(out, "C13", tier)
     from .checks_traces import run_traces
     run_traces(out, "C13", tier)
+    from .checks_dimsets import run_dimset_traces
+    run_dimset_traces(out, "C13", tier)     # arrays built from dimension sets after every call of random set programs (also in-place edits)
     out.assumptions += [
         "ShapeInv, FailedCallsChangeNothing and InputsUnchanged are TLC-checked on the contract; the replay re-checks "
         "values.shape == dims.shape and compares every register with the specification after every step of every behaviour",
